@@ -160,6 +160,29 @@ Proof.
     cbn [mem_nat]. rewrite Hk. apply orb_true_r.
 Qed.
 
+Lemma disciplined_suffix : forall q1 held kept rest,
+  disciplined_from held kept (q1 ++ rest) = true ->
+  exists held' kept', disciplined_from held' kept' rest = true /\
+                      (forall x, mem_nat x kept = true -> mem_nat x kept' = true).
+Proof.
+  induction q1 as [|s r IH]; intros held kept rest Hd.
+  - exists held, kept. split; [exact Hd | auto].
+  - cbn [app] in Hd. destruct s as [x|x d|x d|x|x|x]; cbn [disciplined_from] in Hd;
+      apply andb_true_iff in Hd; destruct Hd as [_ Hd]; try (eapply IH; eassumption).
+    destruct (IH _ _ _ Hd) as (h' & k' & H1 & H2). exists h', k'. split; [exact H1|].
+    intros y Hy. apply H2. cbn [mem_nat]. rewrite Hy. apply orb_true_r.
+Qed.
+
+(* once a handle is kept (envelopeReader.last) it is never returned to the pool *)
+Lemma kept_never_put_lemma : forall p q1 q2 h,
+  disciplined p = true -> p = q1 ++ Keep h :: q2 -> mem_nat h (puts q2) = false.
+Proof.
+  intros p q1 q2 h Hd ->. unfold disciplined in Hd.
+  destruct (disciplined_suffix q1 [] [] (Keep h :: q2) Hd) as (held' & kept' & H1 & _).
+  cbn [disciplined_from] in H1. apply andb_true_iff in H1. destruct H1 as [_ H1].
+  eapply kept_never_put_from; [exact H1|]. cbn [mem_nat]. rewrite Nat.eqb_refl. reflexivity.
+Qed.
+
 (* ---- the skeletons of the code paths (counts of Get / Put are what the
    hook trace of the implementation is compared with) ---- *)
 Definition data : bytes := [x01].
